@@ -27,11 +27,13 @@ REQUIRED = {
     "quick": {"in_process_pairs": 24, "child_processes_compared": 8, "class/correlated_fundamentals": 8,
               "class/all_builtin_event_classes": 8, "class/nontrivial_run": 16, "different_seed_pairs": 10,
               "settings_objects_compared": 24, "near_twin_runs_before": 1, "refused_runs_before": 4,
-              "class/cheap_stock_run_with_sub_tick_draws_compared": 1},
+              "class/cheap_stock_run_with_sub_tick_draws_compared": 1,
+              "class/user_market_class_drawing_from_its_generator_compared_across_hash_seeds": 2},
     "thorough": {"in_process_pairs": 500, "child_processes_compared": 300, "class/correlated_fundamentals": 200,
                  "class/all_builtin_event_classes": 200, "class/nontrivial_run": 400, "different_seed_pairs": 200,
                  "settings_objects_compared": 500, "near_twin_runs_before": 30, "refused_runs_before": 100,
-                 "class/cheap_stock_run_with_sub_tick_draws_compared": 20},
+                 "class/cheap_stock_run_with_sub_tick_draws_compared": 20,
+                 "class/user_market_class_drawing_from_its_generator_compared_across_hash_seeds": 30},
 }
 CASE_TIMEOUT_S = 600
 SHARDS = {"quick": 16, "thorough": 16}
@@ -49,6 +51,10 @@ def gen_case(rng, tier, idx):
                          "outstandingShares": 25000}
     cfg["SpotBase"] = {"extends": "MarketBase", "fundamentalVolatility": rng.choice([0.001, 0.005]),
                        "fundamentalDrift": rng.choice([0.0, 0.0001])}
+    if idx % 8 == 4:
+        # the spot markets are of a user-registered class that draws from the generator the runner hands to each market
+        # (these runs are among those repeated in child processes with other hash seeds)
+        cfg["MarketBase"]["class"] = "DrawingMarket"
     cfg["Spot"] = {"extends": "SpotBase"}
     if use_range:
         cfg["Spot"].update({"from": 0, "to": n_spot - 1})
@@ -390,6 +396,8 @@ def run_case(case, res):
                     continue
                 o = json.loads(r.stdout.strip().splitlines()[-1])
                 res.count("child_processes_compared")
+                if case["config"].get("MarketBase", {}).get("class") == "DrawingMarket":
+                    res.count("class/user_market_class_drawing_from_its_generator_compared_across_hash_seeds")
                 if o["digest"] != d1:
                     res.violation("repro", "outcome-depends-on-the-process-hash-seed-or-process-state",
                                   {"PYTHONHASHSEED": hs, "digest_in_process": d1, "digest_child": o["digest"],
